@@ -795,7 +795,7 @@ func runL1x(c *lib.Ctx, ls *lib.Livesim, id string, in c11in, failIn any) (o l1o
 			case 599:
 				key = panicKey(d.Err, dOld, d2)
 			case 500:
-				key = "error-500"
+				key = "error-500:" + d.Err
 				if i := strings.LastIndex(d.Err, ": "); i >= 0 {
 					key = "error-500:" + d.Err[i+2:]
 				}
